@@ -49,6 +49,8 @@ type EWCase struct {
 	BSame bool `json:"bSame,omitempty"`
 	// AlsoUnsafe: UseUnsafe() is passed together with WithReuse (the reuse tensor is still the destination)
 	AlsoUnsafe bool    `json:"alsoUnsafe,omitempty"`
+	// SafeOpt: safe mode asked for explicitly with UseSafe() instead of by passing no option
+	SafeOpt bool `json:"safeOpt,omitempty"`
 	Tol        float64 `json:"-"`
 	scTensor   *tensor.Dense
 	scVal      interface{}
@@ -73,7 +75,7 @@ func (c *EWCase) NTKey() string {
 			return ""
 		}
 	}
-	return fmt.Sprintf("%s|%s|%s|%s|%s|%s|%v|%v|%v|%v|%v|%v|%s|%v|%v", c.Op, c.DT, c.Form, c.Via, c.Mode, c.Engine, c.SameType, c.ScT, c.A.Shape, c.A.L, layoutOf(c.B), layoutOf(c.Dst), c.Pre, c.BSame, c.AlsoUnsafe)
+	return fmt.Sprintf("%s|%s|%s|%s|%s|%s|%v|%v|%v|%v|%v|%v|%s|%v|%v|%v", c.Op, c.DT, c.Form, c.Via, c.Mode, c.Engine, c.SameType, c.ScT, c.A.Shape, c.A.L, layoutOf(c.B), layoutOf(c.Dst), c.Pre, c.BSame, c.AlsoUnsafe, c.SafeOpt)
 }
 
 func layoutOf(o *Opnd) string {
@@ -331,6 +333,10 @@ func (c *EWCase) run() string {
 	var opts []tensor.FuncOpt
 	switch c.Mode {
 	case "safe":
+		if c.SafeOpt {
+			rec.Class("safe-explicit")
+			opts = append(opts, tensor.UseSafe())
+		}
 	case "unsafe":
 		opts = append(opts, tensor.UseUnsafe())
 	case "reuse", "incr":
